@@ -67,6 +67,7 @@ def run(R):
              'transactions are outside the claim')
     R.extra['trusted_base'] = ['z3', 'vt/sqlsym interpreter', 'vt/glue', 'environment stubs of vt/sqlsym/batchops.py']
     client_ids(R)
+    client_end_to_end(R)
     quick = R.tier == 'quick'
     sizes = model.Sizes(J=3, G=2, U=3, I=1, A=2, T=2, IC=1)
     w = int(os.environ.get('VERIF_WORKERS', '12'))
@@ -169,5 +170,52 @@ def client_ids(R):
     R.sample({'layer': 'id arithmetic', 'pairs': [p[0] for p in pairs], 'secs': round(time.time() - t0, 2)})
 
 
+def client_end_to_end(R):
+    """the real aioclient.Batch against the real handlers: ids the client computes == ids the server assigned"""
+    import z3
+    from harness import C09_client as cc
+    t0 = time.time()
+    thorough = R.tier != 'quick'
+    n, results, choice_vars = cc.explore(thorough)
+    text = loader.read('hail/python/hailtop/batch_client/aioclient.py')
+    for nd in ast.walk(ast.parse(text)):
+        if isinstance(nd, (ast.FunctionDef, ast.AsyncFunctionDef)) and nd.name in ('_submit', 'submit', '_create_fast', '_update_fast',
+                                                                                  '_commit_update', '_open_batch', '_create_update',
+                                                                                  '_create_job', '_create_job_group'):
+            R.encode(f'hail/python/hailtop/batch_client/aioclient.py:{nd.lineno} {nd.name}', ast.get_source_segment(text, nd))
+    if n < 50:
+        raise HarnessError('client end-to-end: too few shapes explored (vacuous)')
+    status = 'discharged'
+    seen = set()
+    for pc, bad in results:
+        kind = ' '.join(w for w in bad[0].split() if not w.isdigit())[:60]
+        if kind in seen or len(seen) >= 3:
+            continue
+        seen.add(kind)
+        s = z3.Solver()
+        s.add(*pc)
+        s.add(*[z3.And(v >= 0, v < len(opts)) for v, opts in choice_vars.values()])
+        if str(s.check()) != 'sat':
+            raise HarnessError('client end-to-end: violating path has an unsatisfiable path condition')
+        m = s.model()
+        vals = {name: m.eval(v, model_completion=True).as_long() for name, (v, opts) in choice_vars.items()}
+        again = cc.replay_choices(vals, thorough)
+        if not again:
+            raise HarnessError(f'client end-to-end: violation does not reproduce on a concrete re-run: {bad[:2]}')
+        status = R.finding('client-ids-differ-from-server-ids', f'{again[0]} (shape {vals})',
+                           {'kind': 'client', 'choices': vals, 'thorough': thorough, 'violations': again})
+    R.ob(f'client end to end: {n} session shapes (jobs/groups per submit, fast vs multi-bunch path, parents, one retried '
+         f'request): client ids == server ids, parents and groups recorded as the client meant, no duplicated job',
+         status, time.time() - t0, {'shapes': n, 'observations': sorted(set(cc.OBSERVATIONS))}, nontrivial=True)
+    R.sample({'layer': 'client end to end', 'shapes': n, 'observations': sorted(set(cc.OBSERVATIONS))})
+
+
 def replay(path):
+    import json
+    d = json.load(open(path))['replay']
+    if d.get('kind') == 'client':
+        from harness import C09_client as cc
+        bad = cc.replay_choices(d['choices'], d.get('thorough', False))
+        print(bad)
+        return 1 if bad else 0
     return sc_.replay_file(path, asserts)
